@@ -788,7 +788,7 @@ pub fn read_all(mut script: Vec<SEv>) -> (Vec<RFrame>, ReadEnd) {
                 Some(Ok(None)) => return (frames, ReadEnd::CleanEof),
                 Some(Err(e)) => return (frames, ReadEnd::Error(e.to_string())),
             }
-            if frames.len() > 10_000 {
+            if frames.len() > 300_000 {
                 return (frames, ReadEnd::Error("too many frames".into()));
             }
         }
@@ -1153,7 +1153,10 @@ pub fn worker(job: &Job) -> Shard {
             c07_deep(job, &mut sh);
             c07_strings(job, &mut sh, t0);
         }
-        "C08" => c08(job, &mut sh, t0),
+        "C08" => {
+            c08_long(job, &mut sh);
+            c08(job, &mut sh, t0)
+        }
         p => panic!("no E4 plan for {}", p),
     }
     sh
@@ -1181,6 +1184,29 @@ pub fn replay(prop: &str, case: &Value) -> Vec<Violation> {
                 }
             }
         }
+        "long" => {
+            // re-run the whole battery for this spec
+            let kind = case["gen"].as_str().unwrap_or("").to_string();
+            let n = case["n"].as_u64().unwrap_or(0) as usize;
+            let frames = long_frames(&kind, n);
+            let mut want = vec![];
+            for f in &frames {
+                resp_encode(f, &mut want);
+            }
+            match write_all(&frames) {
+                Ok(e) if e == want => {}
+                other => sh.violate(Violation { class: "C08:encoding-differs-from-reference".into(), msg: format!("replay of long traffic {}({}): {:?}", kind, n, other.map(|b| b.len())), case: case.clone() }),
+            }
+            for c in [usize::MAX, 1000, 4096, 8192, 16_384, 65_536] {
+                let mut script: Vec<SEv> = if c == usize::MAX { vec![SEv::Data(want.clone())] } else { want.chunks(c).map(|x| SEv::Data(x.to_vec())).collect() };
+                script.push(SEv::Eof);
+                let (got, end) = read_all(script);
+                if got != frames || end != ReadEnd::CleanEof {
+                    sh.violate(Violation { class: "C08:decoded-frames-differ".into(), msg: format!("replay of long traffic {}({}) in chunks of {}: {} frames then {:?}", kind, n, c, got.len(), end), case: case.clone() });
+                    break;
+                }
+            }
+        }
         "roundtrip" => {
             let frames: Vec<RFrame> = case["frames"].as_array().map(|a| a.iter().filter_map(frame_from_json).collect()).unwrap_or_default();
             // re-run the whole round-trip battery for exactly this frame sequence
@@ -1198,6 +1224,104 @@ pub fn replay(prop: &str, case: &Value) -> Vec<Violation> {
         _ => {}
     }
     sh.violations
+}
+
+/// LONG traffic (state that accumulates over many frames, element counts and payloads beyond the
+/// small universe), generated from a spec so that a replay can rebuild it.
+pub fn long_frames(kind: &str, n: usize) -> Vec<RFrame> {
+    match kind {
+        "many_small" => (0..n)
+            .map(|i| match i % 6 {
+                0 => RFrame::Simple(b"OK".to_vec()),
+                1 => RFrame::Integer(i as i64 - 1000),
+                2 => RFrame::Bulk(format!("value-{}", i).into_bytes()),
+                3 => RFrame::Null,
+                4 => RFrame::Error(b"ERR e".to_vec()),
+                _ => RFrame::Array(vec![RFrame::Bulk(b"k".to_vec()), RFrame::Integer(i as i64), RFrame::Simple(vec![])]),
+            })
+            .collect(),
+        "array_n" => vec![
+            RFrame::Array(
+                (0..n)
+                    .map(|i| match i % 4 {
+                        0 => RFrame::Bulk(vec![b'e'; i % 5]),
+                        1 => RFrame::Integer(i as i64),
+                        2 => RFrame::Simple(vec![]),
+                        _ => RFrame::Null,
+                    })
+                    .collect(),
+            ),
+            RFrame::Integer(7),
+        ],
+        "bulk_n" => vec![RFrame::Bulk((0..n).map(|i| (i % 253) as u8).collect()), RFrame::Simple(b"x".to_vec()), RFrame::Bulk(vec![b'\n'; n])],
+        _ => vec![],
+    }
+}
+
+fn c08_long(job: &Job, sh: &mut Shard) {
+    let mut specs: Vec<(&str, usize)> = vec![];
+    for n in job.tier.pick(vec![300usize, 3000], vec![300, 3000, 30_000, 120_000]) {
+        specs.push(("many_small", n));
+    }
+    for n in job.tier.pick(vec![255usize, 256, 257, 1000, 70_000], vec![9, 10, 11, 99, 100, 101, 255, 256, 257, 999, 1000, 1001, 4096, 65_535, 65_536, 65_537, 100_000]) {
+        specs.push(("array_n", n));
+    }
+    for n in job.tier.pick(vec![65_535usize, 65_536, 65_537, 1 << 20], vec![16_383, 16_384, 16_385, 65_535, 65_536, 65_537, 131_072, 1 << 20, (1 << 20) + 1, 4 << 20]) {
+        specs.push(("bulk_n", n));
+    }
+    for (i, (kind, n)) in specs.iter().enumerate() {
+        if i % job.nshards != job.shard {
+            continue;
+        }
+        let frames = long_frames(kind, *n);
+        let what = format!("long traffic {}({})", kind, n);
+        let case = |extra: Value| json!({"engine": "resp", "kind": "long", "gen": kind, "n": n, "at": extra});
+        let mut want = vec![];
+        for f in &frames {
+            resp_encode(f, &mut want);
+        }
+        sh.nontrivial.insert(fnv(what.as_bytes()));
+        // write side
+        for (caps, rest) in [(vec![], 0usize), (vec![], 100), (vec![], 4096), (vec![], 8191), (vec![], 8192), (vec![0, 5, 0], 65_536)] {
+            sh.evaluations += 1;
+            match write_all_with(&frames, &caps, rest) {
+                Ok(e) if e == want => {}
+                Ok(e) => {
+                    let d = e.iter().zip(want.iter()).position(|(a, b)| a != b).unwrap_or(e.len().min(want.len()));
+                    sh.violate(Violation { class: "C08:encoding-differs-from-reference".into(), msg: format!("{}: transport accepting {:?} then {} bytes per call: {} bytes written, reference {}, first difference at byte {}", what, caps, rest, e.len(), want.len(), d), case: case(json!({"write_caps": caps, "rest": rest})) });
+                    break;
+                }
+                Err(m) => {
+                    sh.violate(Violation { class: format!("C08:{}", if m.contains("PANIC") { "write-panics" } else { "write-fails" }), msg: format!("{}: {}", what, m), case: case(json!({"write_caps": caps, "rest": rest})) });
+                    break;
+                }
+            }
+        }
+        // read side: whole, fixed-size chunks (a read that fills the buffer exactly), single cuts at the marks
+        let nbytes = want.len();
+        let mut deliveries: Vec<(String, Vec<SEv>)> = vec![("whole".into(), vec![SEv::Data(want.clone())])];
+        for c in [1000usize, 4096, 8192, 16_384, 65_536] {
+            deliveries.push((format!("chunks of {}", c), want.chunks(c).map(|x| SEv::Data(x.to_vec())).collect()));
+        }
+        for c in [1usize, 8191, 8192, 8193, 16_384, 65_535, 65_536, 65_537, nbytes / 2, nbytes - 1] {
+            if c > 0 && c < nbytes {
+                deliveries.push((format!("cut at {}", c), vec![SEv::Data(want[..c].to_vec()), SEv::Data(want[c..].to_vec())]));
+            }
+        }
+        for (dname, mut script) in deliveries {
+            script.push(SEv::Eof);
+            sh.evaluations += 1;
+            sh.transitions += frames.len() as u64;
+            let (got, end) = read_all(script);
+            if got != frames || end != ReadEnd::CleanEof {
+                let d = got.iter().zip(frames.iter()).position(|(a, b)| a != b).unwrap_or(got.len().min(frames.len()));
+                sh.violate(Violation { class: format!("C08:{}", if matches!(end, ReadEnd::Panic(_)) { "read-panics" } else { "decoded-frames-differ" }), msg: format!("{} delivered as {}: {} frames then {:?}, expected {} frames then a clean end; first difference at frame #{}", what, dname, got.len(), end, frames.len(), d + 1), case: case(json!({"delivery": dname})) });
+                break;
+            }
+        }
+        sh.outcome(format!("long:{}", kind));
+    }
+    sh.count("long-traffic-specs", specs.len() as u64);
 }
 
 /// Transports that accept less than they are offered: (bytes accepted by the first write calls
